@@ -433,6 +433,7 @@ pub fn run(tier: Tier) -> i32 {
     let tier = Tier::Thorough;
     let ds = dags(tier, deep);
     rep.set("rule", json!("Reference DAGs on n = 2..4 labelled sibling elements (thorough tier: chains/stars/diamonds of 4 over ALL forms in every position, and n = 5 chains, stars, binary trees and combs over 5 forms in every position, all 120 orders each): every root spelling (xy+wh, longhand, no position, circle, ellipse, line) x every single-target reference form (20: |h/|v/|H/|V with gap, @loc, cxy, wh=#t, scalar refs, expression scalar, surround, inside, connector, use, text, relative size, points, dxy, xy-loc, per-axis, dw/dh) x every second form and target, two-target forms (connectors, surround of two, mixed axes), chains/stars/diamonds of 4, each rendered in ALL n! document orders (the schedules of the retry loop), plain and with the first element wrapped in <g>, under the default limits and under depth-limit 6 (just enough for the document, so residue of failed attempts becomes visible). State = (DAG, order); transition = one execution. Invariant: all orders agree on success, and on success every id has identical output (element name, all attributes, generated text) and the root extent is identical. Unsatisfiable variants (unknown id, 2-cycle, self reference, target without bounding box: empty g, defs, unitful rect, rect without size) must fail in every order. Non-trivial = all orders Ok (or an unsatisfiable variant failing everywhere)."));
+    rep.set("also_later", json!("Round 5 added pairs: a reference inside an id attribute (known and unknown), '^' after an <if> whose last element waited."));
     rep.set("also", json!("Also 20 scenario documents in all orders: <reuse id=..> as a reference target (relative, absolute, in a cycle, self-referencing), groups holding a forward reference as targets of references and of <reuse> placed by size, forward clip paths (shape, group, cycle), references into and out of a nested container (<g>, <if>, <loop>, <a>, transformed <g>), references to and reuse of <specs> content."));
     let st = run_space(ds.len() * 4, |i| check(&ds[i / 4], i % 2 == 1, (i / 2) % 2 == 1));
     rep.set("states", json!(st.evaluations));
